@@ -26,6 +26,7 @@ from harness.common import fhex, fparse
 
 PROPERTY = "C09"
 GROUPS = ["masks"]
+EXTRA_PROPS = ["Props/X09_bnaf.v", "Props/X01_autoreg.v"]  # BNAF positivity/monotonicity for all raw weights + bridge to the inverter; the concrete masked conditioner
 MANIFEST = {
     "design_ref": "DESIGN.md 4.9",
     "technique": "Coq proof by induction over layers / sizes about an executable Gallina model generic in the numeric carrier "
